@@ -109,7 +109,11 @@ def run(tier, seed):
         "stats": dict(stats),
     })
     run.assumptions = ["sessions that trigger the model's staleness events are attributed to the open findings K1/K2 only "
-                       "when the implementation disagrees with the semantics on them"]
+                       "when the implementation disagrees with the semantics on them",
+                       "the session theorems for calls carry the premise that the code of the built-ins and of the user functions "
+                       "lies at their entry points (bcode): it is discharged by computation for the machines of PropC01.v's examples "
+                       "(C01_builtin_premises_hold, C01_user_function_premises_hold); for the generated sessions the 'inside the proven "
+                       "fragment' count takes it from the shape of the definitions (f = (params) -> pure expression, not rebound)"]
     return run.finish()
 
 
